@@ -269,6 +269,23 @@ def h_per_match(d: bool):
             return finish(False, 'per_match: wrong bonds in the product of match %r' % (mt,))
     if [a.radical for a in mol.atoms] != rads or len(mol.bonds) != 2:
         return finish(False, 'per_match: the reactant molecule was modified')
+    # the SAME rule object run a second time, on another molecule with another match list: nothing of the first run may remain
+    nm2 = choose('nmatch2', 3)
+    matches[:] = [(1, 2), (2, 1)][:nm2]
+    RQ.Chem, RQ.rdqueries, MQ.Chem = rf.FakeChem(), rf.FakeRdqueries(), rf.FakeChem()
+    try:
+        mol2 = rf.FMol([rf.FAtom(6, radical=0) for _ in range(3)], [rf.FBond(0, 1, BT.SINGLE), rf.FBond(1, 2, BT.SINGLE)])
+        out2 = rq.RunReactants(mol2)
+    except Exception as e:
+        return finish(False, 'per_match: second run of the same rule raised ' + type(e).__name__)
+    finally:
+        RQ.Chem, RQ.rdqueries, MQ.Chem = saved
+    if len(out2) != len(matches):
+        return finish(False, 'per_match: second run of the same rule gives %d product sets for %d matches' % (len(out2), len(matches)))
+    for mt, prods in zip(matches, out2):
+        p = prods[0]
+        if [x.radical for x in p.atoms] != [1 if i == mt[0] else 0 for i in range(3)]:
+            return finish(False, 'per_match: second run of the same rule edits atoms of the first run')
     return finish(True, 'ok')
 
 
